@@ -291,6 +291,18 @@ Section Resume.
   Qed.
 End Resume.
 
+(* ---- Resume's version probe ignores the configured header limit ------------------------------------------ *)
+(* OpenReadWrite(.., MaxAllowedHeaderSize(1 KiB)) on four bytes that declare a 24 MiB header: ResumableVersion
+   calls ReadVersion WITHOUT the caller's options, so the buffer is requested under the 32 MiB default and
+   the answer is unexpected EOF, not ErrHeaderTooLarge *)
+Definition probe_wopts : wopts := mkwopts 0 0 1025 false 2048 false false false false 1024 8388608.
+Definition probe_file : bytes := put_uv 25165824.
+Lemma resume_probe_over_limit :
+  resume_allocs dec_header_canon KBlockstore true probe_wopts [] probe_file [] = [25165824] /\
+  tot_resume dec_header_canon probe_wopts [] probe_file = TErr EUnexpectedEof /\
+  w_maxh probe_wopts < 25165824.
+Proof. vm_compute. repeat split; reflexivity. Qed.
+
 (* ---- a limit above what the runtime can allocate: the guard is needed -------------------------------- *)
 (* MaxAllowedSectionSize(1<<62) and a section that declares 2^61 bytes: make() itself panics *)
 Definition huge_limit_opts : ropts := mkropts false 33554432 4611686018427387904 true.
